@@ -248,7 +248,47 @@ def rule_lookups_scoped(ctx):
     ctx.floor("C04.f by-name lookups inspected", n, 2)
 
 
+def rule_executemany_count(ctx):
+    """C04.g: after executemany over several parameter sets of a DML statement the public rowcount is made of the engine's
+    affected-row counts (of the last statement, or their sum) — never of the size of the one-row status results."""
+    from ..execmodel import FullHooks, make_session
+    from ..values import Tup
+
+    prog = ctx.prog
+    if not prog.has_fn("cursor", "FakeSnowflakeCursor.executemany"):
+        return
+    sets = [Tup([Sym("A1")]), Tup([Sym("B1")]), Tup([Sym("C1")])]
+    hooks, sessions = [], []
+
+    def fac():
+        h = FullHooks(None, "INSERT")
+        hooks.append(h)
+        return h
+
+    def run(I):
+        duck, conn, cur = make_session()
+        conn.attrs[R().paramstyle] = Const("qmark")
+        sessions.append(cur)
+        I.call(I.getattr(cur, "executemany"), [Sym("COMMAND", typ="str", truthy=True), Tup(sets)], {}, None)
+        return I.getattr(cur, "rowcount")
+
+    n = 0
+    for p, h in zip(explore(prog, fac, run, max_paths=64), hooks):
+        if h.parsed == 0 or p.outcome != "return":
+            continue
+        n += 1
+        t = tagof(p.value)
+        ok = "engine_count" in t and "num_rows" not in t
+        ctx.ob("C04.g", "executemany(INSERT …, 3 parameter sets): rowcount is built from the engine's affected-row counts", ok, "fakesnow/cursor.py", t[:80])
+        if not ok:
+            ctx.violation("C04.g", "cursor", "FakeSnowflakeCursor.executemany", "rowcount after executemany", "fakesnow/cursor.py",
+                          f"after executemany of a DML statement cursor.rowcount is `{t[:80]}`: it counts the rows of the status results (one per "
+                          f"statement) instead of the rows the statements affected — 2 for two UPDATEs that matched nothing")
+    ctx.floor("C04.g executemany paths", n, 1)
+
+
 RULES = [
+    ("C04.g", rule_executemany_count, ("quick", "thorough")),
     ("C04.f", rule_lookups_scoped, ("quick", "thorough")),
     ("C04.e", rule_nop, ("quick", "thorough")),
     ("C04.a", rule_count, ("quick", "thorough")),
